@@ -326,6 +326,8 @@ def check_resize_records(m, f, rule):
     def known_null_existing(ps):
         return any(op == 'eq' and y == 'null' and is_load_of(f, x, 'bucket.hash') for (op, x, y) in ps.known)
 
+    local_table = []
+
     def transfer(ins, st, ps):
         if ins.op == 'call' and ins.x.get('noreturn'):
             return None
@@ -353,6 +355,10 @@ def check_resize_records(m, f, rule):
                     bad.append('the default function replaces an existing one at %s' % ins.loc())
             elif vi is not None and vi.op in ('phi', 'select'):
                 bad.append('NOT-DECIDED')
+            elif vi is not None and vi.op == 'load' and isinstance(resolve_addr(f, vi.o[0]).root, str) \
+                    and f.get(resolve_addr(f, vi.o[0]).root) is not None and f.get(resolve_addr(f, vi.o[0]).root).op == 'alloca':
+                # picked out of a table of candidates the function built on its stack: which entry is not decided here
+                local_table.append(ins)
             else:
                 bad.append('the pending function recorded at %s is neither the request, the existing one nor the default' % ins.loc())
         return st
@@ -368,6 +374,9 @@ def check_resize_records(m, f, rule):
             return
     if bad:
         rule.violation('cstl_hash_resize:records', '; '.join(sorted(set(bad))), floc(m, f), {})
+    elif local_table:
+        rule.ok('cstl_hash_resize:records', 'NOT DECIDED which function is recorded: it is read from a table of candidates built on the stack (%s); '
+                'rh.count := request, rh.clean := 0' % local_table[0].loc(), floc(m, f))
     else:
         rule.ok('cstl_hash_resize:records', 'rh.count := request, rh.hash := request | existing | default, rh.clean := 0', floc(m, f))
 
